@@ -56,7 +56,9 @@ def base_checks(ctx, rep, cfgs, rid_prefix='G'):
         for d, m, s in models(ctx, cfg):
             n += 1
             rep.inst(rid, '%s:%s' % (cfg, dkey(d)), detail=dict(states=len(m.state_order) if m else 0), trivial=True)
-            if d.rejected:
+            if d.rejected and d.label != 'corpus':
+                # repository definitions are accepted on the reference tree; corpus definitions that get rejected are
+                # reported by the rule that owns them (twin groups) or by the shape coverage counters
                 rep.viol(rid, 'rejected:%s:%s' % (d.backend, dkey(d)), 'definition %s is rejected by the derive (compile_error) although the reference tree accepts it' % d.name, '%s line %d' % (d.label, d.line))
             elif m is None:
                 rep.viol(rid, 'unsupported:%s:%s' % (d.backend, dkey(d)), 'generated code of %s is outside the analysable subset: %s' % (d.name, d.error), '%s line %d' % (d.label, d.line))
